@@ -12,4 +12,4 @@ Extraction "wirex.ml"
   Frame.unmarshal Frame.marshal Frame.read_header
   Instance.i_inner Instance.i_vars Instance.i_levels Instance.inner_state
   Wire.fresh_gen Wire.step_gen
-  Wire.compat_gen Wire.cur_gen Wire.marshal_gen Wire.unmarshal_gen Wire.marshal_size.
+  Wire.compat_gen Wire.cur_gen Wire.marshal_gen Wire.unmarshal_gen Wire.marshal_size Wire.wf_msg.
